@@ -281,7 +281,7 @@ def run(ctx):
     ctx.build_lib()
     exe = ctx.build_harness("ph_reset", extra=("-I", str(vlib.BUILD / "c07gen")))
     pol = Policy(a)
-    n = ctx.n(30, 800)
+    n = ctx.n(150, 3000)
     if not ok:
         n = max(n, 300)
     cases = targeted_cases() + [make_case(ctx.rng, full=(ctx.tier == "thorough" and i % 4 == 0)) for i in range(n)]
